@@ -134,6 +134,19 @@ CLAIMS = {
             "retryable. Not decided: network/collector behaviour, back-off timing.",
             "custom MIR rules: await-source resolution, per-iteration removal counting, value-set evaluation of guards",
             "3/C12"),
+    "C14": ("Decides on built MIR: on every path through OtlpInner::emit exactly one of {Sender::send on the metrics / "
+            "traces / logs sender, event_discarded.increment} happens; encoders are consulted in the order metrics, "
+            "traces, logs, an accepted event never falls through, and the sender used is the one bound in the same tuple "
+            "as the encoder whose Some payload is sent; the traces encoder produces a payload only on the accept edge of "
+            "is_span_filter() and the ?-success edge of extent().and_then(as_range); the metrics encoder only under "
+            "is_metric_filter(), a present metric_value and ?-checked points_from_value, whose Value::stream result is "
+            "?-checked and whose stream impl makes text/bool/null errors; the logs encoder has no declining path; "
+            "is_span_filter/is_metric_filter build KindFilter(Span/Metric), KindFilter::matches compares "
+            "pull::<Kind>(\"evt_kind\") with its own kind; FromValue for Kind = downcast then Value::parse; the kind's "
+            "text constants agree between Display and FromStr. Not decided: which sval calls a runtime value produces.",
+            "custom MIR rules: path enumeration with per-path counting and provenance, guard edges, error-discipline "
+            "(ignored Result) check, sibling-impl agreement",
+            "3/C14"),
 }
 
 REASONS_NOT_YET = "check not built yet (build in progress; DESIGN.md section 3 lists the planned rules)"
